@@ -709,6 +709,10 @@ class Executor(object):
                 return r
             return False
         if isinstance(x, Iface) and isinstance(y, Iface):
+            if isinstance(x.val, Opaque) and isinstance(y.val, Opaque) and x.val.kind == 'error' and y.val.kind == 'error' \
+                    and x.val.data and y.val.data and x.val.data[0] == 'id' and y.val.data[0] == 'id':
+                same = int_cmp('==', x.val.data[1], y.val.data[1], 64, True)
+                return b_or(b_and(x.isnil, y.isnil), b_and(b_and(b_not(x.isnil), b_not(y.isnil)), same))
             if isinstance(x.val, Opaque) and isinstance(y.val, Opaque):
                 same = x.val is y.val or (x.val.kind == y.val.kind and x.val.data == y.val.data)
                 if isinstance(x.isnil, bool) and isinstance(y.isnil, bool) and not x.isnil and not y.isnil:
@@ -1175,10 +1179,15 @@ class Executor(object):
         return [a[0] for a in arr]
 
     # ---------------------------------------------------------------- set-up
+    def init_foreign_errors(self, st):
+        st.heap['g:io.EOF'] = Iface('*errors.errorString', Opaque('error', ('id', 1)))
+        st.heap['g:io.ErrUnexpectedEOF'] = Iface('*errors.errorString', Opaque('error', ('id', 2)))
+
     def init_globals(self, st, pkgs):
         for name, g in self.prog.globals.items():
             st.heap['g:' + name] = zero_value(self.prog, g['type'])
             self.alloc_epoch['g:' + name] = 0
+        self.init_foreign_errors(st)
         for p in pkgs:
             fn = self.prog.funcs.get(p + '.init')
             if fn is not None and fn.blocks:
